@@ -132,7 +132,7 @@ def run_C04(ctx, rep):
 
 def run_C15(ctx, rep):
     n = witness_rules.run_witnesses(ctx, rep, ctx.tier)
-    rep.floor('W', 100 if ctx.tier == 'quick' else 440, 'compile witnesses')
+    rep.floor('W', 135 if ctx.tier == 'quick' else 680, 'compile witnesses')
     return {'cov': {'exhaustive': True, 'witness_tier': ctx.tier}}
 
 
@@ -153,7 +153,7 @@ def run_C07(ctx, rep):
 
 
 def run_C08(ctx, rep):
-    gen_driver.run_twins(ctx, rep, lambda n, k: n.replace('_par', '') in ('t_mac_sugar', 't_macn_sugar'), floors={'T.L': 4})
+    gen_driver.run_twins(ctx, rep, lambda n, k: n.replace('_par', '') in ('t_mac_sugar', 't_macn_sugar', 't_mach_sugar'), floors={'T.L': 6})
     gen_driver.run_tv(ctx, rep, only_tags=['twin'], floors={'R1': 40})
     witness_rules.run_witnesses(ctx, rep, ctx.tier, kinds=('macro_self_rec', 'macro_mutual_rec', 'macro_head_rec'))
     macro_rules.check_M2(ctx, rep)
